@@ -103,3 +103,55 @@ func verifC12Split() {
 	}
 	verifReach("end")
 }
+
+// C12 (intermediate node): the real IntermediateMetricContext.makeTaskResponse forwards what its
+// grouping aggregator holds: every group exactly once, with its own tags and its own field bytes
+// (1-3 groups, 1-2 fields, symbolic tag and field bytes).
+func verifC12Intermediate() {
+	nGroups := 1 + verifChoose("groups", 3)
+	nFields := 1 + verifChoose("fields", 2)
+	names := []string{"f", "g"}
+	tags := make([]byte, nGroups)
+	data := make([][]byte, nGroups)
+	var groups series.GroupedIterators
+	for i := 0; i < nGroups; i++ {
+		tags[i] = verifNondetByte("tag")
+		data[i] = make([]byte, nFields)
+		g := &verifSplitGroup{tagIDs: string([]byte{tags[i], byte('0' + i)})}
+		for k := 0; k < nFields; k++ {
+			data[i][k] = verifNondetByte("fieldByte")
+			g.fields = append(g.fields, &verifSplitField{name: names[k], data: []byte{data[i][k], byte(i)}})
+		}
+		groups = append(groups, g)
+	}
+	ctx := &IntermediateMetricContext{req: &protoCommonV1.TaskRequest{RequestID: "r"}}
+	ctx.groupAgg = &verifSplitAgg{groups: groups}
+	ctx.aggregatorSpecs = map[string]*protoCommonV1.AggregatorSpec{"f": {FieldName: "f"}}
+	resp := ctx.makeTaskResponse()
+	var l protoCommonV1.TimeSeriesList
+	verifAssert(l.Unmarshal(resp.Payload) == nil, "the response payload is a time series list")
+	verifAssert(len(l.TimeSeriesList) == nGroups, "every group is forwarded exactly once")
+	seen := make([]int, nGroups)
+	for _, ts := range l.TimeSeriesList {
+		verifAssert(len(ts.Tags) == 2, "a forwarded series carries its tags")
+		if len(ts.Tags) != 2 {
+			continue
+		}
+		i := int(ts.Tags[1] - '0') // the second tag byte is concrete: which group
+		verifAssert(i >= 0 && i < nGroups, "a forwarded series is one of the groups")
+		if i < 0 || i >= nGroups {
+			continue
+		}
+		seen[i]++
+		verifAssert(ts.Tags[0] == tags[i], "a forwarded series carries its own tags")
+		verifAssert(len(ts.Fields) == nFields, "a forwarded series carries all its fields")
+		for k := 0; k < nFields; k++ {
+			f := ts.Fields[names[k]]
+			verifAssert(len(f) == 2 && f[0] == data[i][k] && int(f[1]) == i, "a forwarded series carries its own field bytes")
+		}
+	}
+	for i := range seen {
+		verifAssert(seen[i] == 1, "every group is forwarded exactly once (by group)")
+	}
+	verifReach("end")
+}
